@@ -61,7 +61,9 @@ type vc12Obs struct {
 // ---------------------------------------------------------------------------------------------
 var vc12Client = &http.Client{
 	CheckRedirect: func(req *http.Request, via []*http.Request) error { return http.ErrUseLastResponse },
-	Transport:     &http.Transport{DisableKeepAlives: true, DisableCompression: true},
+	// connections to the proxy are reused (one new connection per case exhausts the ephemeral ports in the thorough tier);
+	// they are dropped whenever the proxy instance is replaced (rig.fresh)
+	Transport: &http.Transport{DisableCompression: true, MaxIdleConnsPerHost: 2, IdleConnTimeout: 30 * time.Second},
 	Timeout:       60 * time.Second,
 }
 
@@ -270,8 +272,13 @@ func vc12Term(c *vc12Case, o *vc12Obs, extractPath string) string {
 	// AddParamsFromQuery outcome (it mutates its argument: use a copy)
 	v2, _ := url.ParseQuery(rawq)
 	addp := "None"
+	impOK := c.ImpOK
 	if ap, err := api.AddParamsFromQuery(v2); err == nil {
 		addp = fmt.Sprintf("(Some (mk_addp %s %s %s %s))", vc12S(ap.Name), cqZ(int64(ap.ReplicationFactorMin)), cqZ(int64(ap.ReplicationFactorMax)), cqBool(ap.StreamChannels))
+		if ap.NoCopy {
+			// the go-unixfs importer refuses nocopy for content that is not a file with a path or URL (a multipart upload never is)
+			impOK = false
+		}
 	}
 	root := ""
 	for _, cl := range o.Calls {
@@ -285,7 +292,7 @@ func vc12Term(c *vc12Case, o *vc12Obs, extractPath string) string {
 	}
 	reqT := fmt.Sprintf("mk_req %s %s %s %s %s %d", vc12S(c.Method), vc12S(c.Path), vc12S(o.URI), cqList(qv), vc12S(o.Sent), c.MP)
 	envT := fmt.Sprintf("mk_env %s %s %s %s %s %s %s %s %s %s %d %d %d %s %d %s", cqBool(vc12CleanPath(c.Path) != c.Path), cqList(pp), cqList(pc), addp,
-		cqBool(c.ImpOK), vc12S(root), cqList(fails), cqBool(o.WasFresh), vc12S(extractPath), vc12S(vc12ResolvedCid.String()),
+		cqBool(impOK), vc12S(root), cqList(fails), cqBool(o.WasFresh), vc12S(extractPath), vc12S(vc12ResolvedCid.String()),
 		3, vc12RepoSize, vc12StorageMax, cqBool(c.GCErr), c.DStatus, vc12S(c.DBody))
 	calls := []string{}
 	for _, cl := range o.Calls {
